@@ -147,3 +147,24 @@ impl ServerAeadCodec {
         Ok(Self { keys, decode_state: vsrv__DecodeState::Init, encode_state: vsrv__EncodeState::Init, connected: false })
     }
 }
+
+//@@ octo-squirrel-client/src/client/config.rs:30-38  struct SslConfig  sha=335b473079324dbf
+#[derive(Default, Clone)]
+pub struct cli__SslConfig {
+    pub certificate_file: Option<String>,
+    pub key_file: Option<String>,
+    pub server_name: Option<String>,
+}
+
+//@@ octo-squirrel-client/src/client/vmess.rs:175-179  mod udp / fn new_codec  sha=efec707c29df7888
+fn vudp__new_codec(addr: &Address, config: &ServerConfig<cli__SslConfig>) -> (r: Result<ClientAEADCodec>)
+    ensures
+        //#C16 C14 C02 C03
+        // a UDP request for exactly this target, with the security the cipher name selects and the id of the configured UUID
+        r matches Ok(c) ==> c.header.command is UDP && c.header.address == *addr && c.header.security == vmess_security(config.cipher)
+            && vmess_id(config.password@.map_values(|c: char| c as u8)) == Some(c.header.id@),
+{
+        let security = if config.cipher == CipherKind::ChaCha20Poly1305 { SecurityType::Chacha20Poly1305 } else { SecurityType::Aes128Gcm };
+        let header = RequestHeader::default(RequestCommand::UDP, security, addr.clone(), &config.password)?;
+        Ok(ClientAEADCodec::new(header))
+    }
